@@ -8,4 +8,11 @@ import PsutilModel.Props.C02
 #print axioms Psutil.C02.C02_isRunning_sticky
 #print axioms Psutil.C02.C02_isRunning_false_forever
 #print axioms Psutil.C02.C02_answers_stable
+#print axioms Psutil.C02.C02_iter_keeps_objects
+#print axioms Psutil.C02.C02_iter_ghost_meaning
+#print axioms Psutil.C02.C02_iter_handles_valid
+#print axioms Psutil.C02.C02_oneshot_identity
+#print axioms Psutil.C02.C02_status_terminated_sound
+#print axioms Psutil.C02.C02_status_listed
+#print axioms Psutil.C02.C02_status_stale_counterexample
 #print axioms Psutil.C02.C02_bootrewrite_counterexample
